@@ -850,3 +850,26 @@ def gen_slider_joint(rng):
         s.loads.append({"kind": "d", "term": "fy", "local": True, "bar": "b2", "t0": Fr(0), "v0": Fr(2), "t1": Fr(1), "v1": Fr(5)})
     s.meta = {"kind": "slider-joint/" + lk}
     return s
+
+
+def gen_pin_first_joint(rng):
+    """A joint where a bar hinged to it comes first in every order (id, place in the file, coordinates) and two bars built
+    into it come later: the joint's rotation gets all its stiffness from bars assembled after one that refers to the joint
+    without referring to that rotation."""
+    s = Structure()
+    std_mat_sec(s, rng)
+    a = Fr(rng.choice(["10", "25", "50"]))
+    ox, oy = Fr(rng.randint(-20, 20)) * 10, Fr(rng.randint(-20, 20)) * 10
+    s.nodes["n1"] = (ox, oy, (True, True, True))
+    s.nodes["n2"] = (ox + 4 * a, oy + 3 * a, (False, False, False))
+    s.nodes["n3"] = (ox + 8 * a, oy + 3 * a, (True, True, rng.random() < 0.5))
+    s.nodes["n4"] = (ox + 4 * a, oy + 6 * a, (False, False, False))
+    m, c = rng.choice(list(s.mats)), rng.choice(list(s.secs))
+    s.bars.append({"id": "a1", "n1": "n1", "l1": LINKS["rigid"], "n2": "n2", "l2": LINKS["pin"], "mat": m, "sec": c})
+    s.bars.append({"id": "b2", "n1": "n2", "l1": LINKS["rigid"], "n2": "n3", "l2": LINKS["rigid"], "mat": m, "sec": c})
+    s.bars.append({"id": "b3", "n1": "n2", "l1": LINKS["rigid"], "n2": "n4", "l2": LINKS["rigid"], "mat": m, "sec": c})
+    v = Fr(rng.choice([-60, -25, 40]))
+    s.loads = [{"kind": "d", "term": "fy", "local": True, "bar": "b2", "t0": Fr(0), "v0": v, "t1": Fr(1), "v1": v * rng.choice([1, 2])},
+               {"kind": "c", "term": "fx", "local": False, "bar": "b3", "t": Fr(1), "v": Fr(rng.choice([300, -800]))}]
+    s.meta = {"kind": "pin_first_joint"}
+    return s
